@@ -25,6 +25,9 @@ class Program:
                 self.traits[k] = v
         self.inlined = []
         self.removed_helpers = []
+        self.inline_sites = []
+        self.helper_bodies = {}
+        self.renamed = []
         if inline and self.fns:
             from .inline import inline_new_helpers
             self.inlined = inline_new_helpers(self)
